@@ -56,3 +56,119 @@ Lemma decodePacket_crash_unknown_kind : decodePacket [2; 0; 0; 0; 7] = Crash.
 Proof. vm_compute. reflexivity. Qed.
 Lemma decodePacket_crash_truncated_array : decodePacket [2; 0; 0; 0; 5; 2; 0; 0; 0; 0] = Crash.
 Proof. vm_compute. reflexivity. Qed.
+
+(* ---- decodePacket never hangs (it may crash, see the crash witnesses above) ---- *)
+Definition VSpec (vis : list Z -> res (option (pval * list Z))) (F : nat) : Prop :=
+  forall bs, bytes_ok bs -> (length bs < F)%nat ->
+    vis bs <> Hang /\
+    forall v rest, vis bs = Ok (Some (v, rest)) -> bytes_ok rest /\ (length rest < length bs)%nat.
+
+Ltac crashy := split; [discriminate | intros ? ? HH; discriminate HH].
+
+Lemma items_spec vis F : VSpec vis F -> forall g k bs acc, bytes_ok bs -> (length bs < F)%nat -> (length bs < g)%nat ->
+  items vis g k bs acc <> Hang /\
+  forall v rest, items vis g k bs acc = Ok (Some (v, rest)) -> bytes_ok rest /\ (length rest <= length bs)%nat.
+Proof.
+  intros HV g. induction g as [|g IH]; intros k bs acc Hb HF Hg; [lia|].
+  cbn [items]. destruct (k <=? 0).
+  { split; [discriminate|]. intros v rest E. inversion E; subst. split; [exact Hb|lia]. }
+  destruct (HV bs Hb HF) as [Hnh Hpost].
+  destruct (vis bs) as [r| |] eqn:Ev; cbn [bind]; [|crashy|congruence].
+  destruct r as [[v bs']|]; [|crashy].
+  destruct (Hpost v bs' eq_refl) as [Hb' Hl'].
+  destruct (IH (k - 1) bs' (v :: acc) Hb' ltac:(lia) ltac:(lia)) as [H1 H2].
+  split; [exact H1|]. intros v0 rest E. destruct (H2 v0 rest E) as [H3 H4]. split; [exact H3|lia].
+Qed.
+
+Lemma rlps_nat bs s rest : bytes_ok bs -> readLengthPrefixedSlice bs = Ok (s, rest, true) ->
+  bytes_ok rest /\ (length rest + 4 <= length bs)%nat.
+Proof.
+  intros Hb E. destruct (readLengthPrefixedSlice_spec bs Hb) as (s' & rest' & ok' & E' & Hr & H1 & _).
+  rewrite E in E'. inversion E'; subst. specialize (H1 eq_refl). unfold len in H1. split; [exact Hr|lia].
+Qed.
+
+Lemma ru32_nat bs v rest : bytes_ok bs -> readUint32 bs = Ok (v, rest, true) ->
+  bytes_ok rest /\ (length rest + 4 = length bs)%nat.
+Proof.
+  intros Hb E. destruct (readUint32_spec bs Hb) as (v' & rest' & ok' & E' & _ & Hr & H1 & _).
+  rewrite E in E'. inversion E'; subst. specialize (H1 eq_refl). unfold len in H1. split; [exact Hr|lia].
+Qed.
+
+Lemma entries_spec vis F : VSpec vis F -> forall g k bs acc, bytes_ok bs -> (length bs < F)%nat -> (length bs < g)%nat ->
+  entries vis g k bs acc <> Hang /\
+  forall v rest, entries vis g k bs acc = Ok (Some (v, rest)) -> bytes_ok rest /\ (length rest <= length bs)%nat.
+Proof.
+  intros HV g. induction g as [|g IH]; intros k bs acc Hb HF Hg; [lia|].
+  cbn [entries]. destruct (k <=? 0).
+  { split; [discriminate|]. intros v rest E. inversion E; subst. split; [exact Hb|lia]. }
+  destruct (readLengthPrefixedSlice_spec bs Hb) as (key & next & ok & Er & _). rewrite Er. cbn [bind].
+  destruct ok; cbn [negb]; [|crashy].
+  destruct (rlps_nat bs key next Hb Er) as [Hbn Hln].
+  destruct (HV next Hbn ltac:(lia)) as [Hnh Hpost].
+  destruct (vis next) as [r| |] eqn:Ev; cbn [bind]; [|crashy|congruence].
+  destruct r as [[v bs']|]; [|crashy].
+  destruct (Hpost v bs' eq_refl) as [Hb' Hl'].
+  destruct (IH (k - 1) bs' ((key, v) :: acc) Hb' ltac:(lia) ltac:(lia)) as [H1 H2].
+  split; [exact H1|]. intros v0 rest E. destruct (H2 v0 rest E) as [H3 H4]. split; [exact H3|lia].
+Qed.
+
+Lemma idx_nohang l i : idx l i <> Hang.
+Proof. unfold idx. destruct (i <? 0); [discriminate|]. destruct (nth_error l (Z.to_nat i)); discriminate. Qed.
+
+Lemma visit_spec fuel : VSpec (visit fuel) fuel.
+Proof.
+  induction fuel as [|f IH]; intros bs Hb Hf; [lia|].
+  cbn [visit].
+  destruct bs as [|kind bs1].
+  { cbn. crashy. }
+  assert (Hb1 : bytes_ok bs1) by (inversion Hb; assumption).
+  change (idx (kind :: bs1) 0) with (Ok kind : res Z). cbn [bind].
+  change (from (kind :: bs1) 1) with (if (0 <=? 1) && (1 <=? len (kind :: bs1)) then Ok (skipn (Z.to_nat 1) (kind :: bs1)) else Crash).
+  rewrite len_cons. pose proof (len_nonneg bs1).
+  destruct ((0 <=? 1) && (1 <=? 1 + len bs1)) eqn:E1; [|lia].
+  change (skipn (Z.to_nat 1) (kind :: bs1)) with bs1. cbn [bind length] in *.
+  destruct (kind =? 0).
+  { split; [discriminate|]. intros v rest E. inversion E; subst. split; [exact Hb1|lia]. }
+  destruct (kind =? 1).
+  { destruct bs1 as [|b bs2]; [cbn; crashy|].
+    change (idx (b :: bs2) 0) with (Ok b : res Z). cbn [bind].
+    unfold from. rewrite len_cons. pose proof (len_nonneg bs2).
+    destruct ((0 <=? 1) && (1 <=? 1 + len bs2)) eqn:E2; [|lia]. cbn [bind].
+    split; [discriminate|]. intros v rest E. inversion E; subst. cbn [skipn Z.to_nat Pos.to_nat Pos.iter_op Nat.add]. 
+    split; [inversion Hb1; assumption|cbn [length]; lia]. }
+  destruct (kind =? 2).
+  { destruct (readUint32_spec bs1 Hb1) as (v & next & ok & Er & _). rewrite Er. cbn [bind].
+    destruct ok; [|crashy]. destruct (ru32_nat bs1 v next Hb1 Er) as [Hbn Hln].
+    split; [discriminate|]. intros v0 rest E. inversion E; subst. split; [exact Hbn|lia]. }
+  destruct (kind =? 3).
+  { destruct (readLengthPrefixedSlice_spec bs1 Hb1) as (s & next & ok & Er & _). rewrite Er. cbn [bind].
+    destruct ok; [|crashy]. destruct (rlps_nat bs1 s next Hb1 Er) as [Hbn Hln].
+    split; [discriminate|]. intros v0 rest E. inversion E; subst. split; [exact Hbn|lia]. }
+  destruct (kind =? 4).
+  { destruct (readLengthPrefixedSlice_spec bs1 Hb1) as (s & next & ok & Er & _). rewrite Er. cbn [bind].
+    destruct ok; [|crashy]. destruct (rlps_nat bs1 s next Hb1 Er) as [Hbn Hln].
+    split; [discriminate|]. intros v0 rest E. inversion E; subst. split; [exact Hbn|lia]. }
+  destruct (kind =? 5).
+  { destruct (readUint32_spec bs1 Hb1) as (count & next & ok & Er & _). rewrite Er. cbn [bind].
+    destruct ok; cbn [negb]; [|crashy]. destruct (ru32_nat bs1 count next Hb1 Er) as [Hbn Hln].
+    destruct (items_spec (visit f) f IH f count next [] Hbn ltac:(lia) ltac:(lia)) as [H1 H2].
+    split; [exact H1|]. intros v0 rest E. destruct (H2 v0 rest E). split; [assumption|lia]. }
+  destruct (kind =? 6).
+  { destruct (readUint32_spec bs1 Hb1) as (count & next & ok & Er & _). rewrite Er. cbn [bind].
+    destruct ok; cbn [negb]; [|crashy]. destruct (ru32_nat bs1 count next Hb1 Er) as [Hbn Hln].
+    destruct (entries_spec (visit f) f IH f count next [] Hbn ltac:(lia) ltac:(lia)) as [H1 H2].
+    split; [exact H1|]. intros v0 rest E. destruct (H2 v0 rest E). split; [assumption|lia]. }
+  crashy.
+Qed.
+
+(* every byte string: decodePacket terminates (with a value, a refusal, or - see above - a crash) *)
+Lemma decodePacket_nohang bs : bytes_ok bs -> decodePacket bs <> Hang.
+Proof.
+  intros Hb. unfold decodePacket.
+  destruct (readUint32_spec bs Hb) as (id & bs' & ok & Er & _). rewrite Er. cbn [bind].
+  destruct ok; cbn [negb]; [|discriminate].
+  destruct (ru32_nat bs id bs' Hb Er) as [Hb' Hl'].
+  destruct (visit_spec (S (S (length bs))) bs' Hb' ltac:(lia)) as [Hnh _].
+  destruct (visit (S (S (length bs))) bs') as [r| |]; cbn [bind]; [|discriminate|congruence].
+  destruct r as [[v rest]|]; [|discriminate]. destruct (negb (len rest =? 0)); discriminate.
+Qed.
